@@ -720,7 +720,15 @@ def pyproj_dst2src(src, dst, px, py):
     X = D[0, 0] * px + D[0, 1] * py + D[0, 2]
     Y = D[1, 0] * px + D[1, 1] * py + D[1, 2]
     if src.crs.to_wkt() != dst.crs.to_wkt():
-        X, Y = Transformer.from_crs(dst.crs.to_wkt(), src.crs.to_wkt(), always_xy=True).transform(X, Y)
+        X0, Y0 = X, Y
+        X, Y = Transformer.from_crs(dst.crs.to_wkt(), src.crs.to_wkt(), always_xy=True).transform(X0, Y0)
+        # a destination point outside the domain of its projection (beyond the outline of a pseudo-cylindrical
+        # world map, say) is not "inside the valid area": it must survive the round trip to count
+        Xr, Yr = Transformer.from_crs(src.crs.to_wkt(), dst.crs.to_wkt(), always_xy=True).transform(X, Y)
+        with np.errstate(invalid="ignore"):
+            tol = 1e-6 * max(abs(D[0, 0]), abs(D[1, 1]), abs(D[0, 1]), abs(D[1, 0]))
+            bad = ~(np.hypot(np.asarray(Xr) - X0, np.asarray(Yr) - Y0) <= tol)
+        X, Y = np.where(bad, np.nan, X), np.where(bad, np.nan, Y)
     return S[0, 0] * X + S[0, 1] * Y + S[0, 2], S[1, 0] * X + S[1, 1] * Y + S[1, 2]
 
 
@@ -768,6 +776,11 @@ def mk_gbox(crs, shape, aff):
     from affine import Affine
     from odc.geo.geobox import GeoBox
     return GeoBox(tuple(shape), Affine(*aff), crs)
+
+
+def p_after_history(hist_names, specs, name, args):
+    from vlib import crshist
+    return crshist.after_history(PREDICATES)(hist_names, specs, name, args)
 
 
 def p_crs_inclusion(src_crs, src_shape, src_aff, dst_crs, dst_shape, dst_aff, kw, step, sliver=1.0):
@@ -824,6 +837,92 @@ def continental_stream(rng, n):
                {"padding": rng.choice([None, None, 1, 2]), "align": rng.choice([None, None, 4])}, 3]
 
 
+def global_stream(rng, n):
+    """global lon/lat sources whose georegistration overshoots [-180,180]x[-90,90] by a hair (typical global
+    GeoTIFFs) and destinations that reach the pole rows: global cylindrical equal-area (EPSG:6933: whole grid,
+    polar caps, western part) and global Equal Earth (EPSG:8857: whole grid only - a partial window of a
+    pseudo-cylindrical map has corners outside the projection's outline, i.e. outside its valid area)"""
+    from pyproj import Transformer
+    for i in range(n):
+        dcrs = "EPSG:8857" if i % 3 == 2 else "EPSG:6933"
+        tol = rng.choice([1e-3, 1e-2, 0.1, 0.25])
+        nx = rng.choice([360, 720, 1440, 2000])
+        ny = nx // 2
+        rx, ry = (360 + 2 * tol) / nx, (180 + 2 * tol) / ny
+        latmax = rng.choice([89.95, 89.5, 88.0])
+        tr = Transformer.from_crs("EPSG:4326", dcrs, always_xy=True)
+        x1, _ = tr.transform(180, 0)
+        _, y1 = tr.transform(0, latmax)
+        dnx = rng.choice([240, 480, 720])
+        mode = "global" if dcrs == "EPSG:8857" else rng.choice(["global", "cap_n", "cap_s", "west"])
+        X0, X1, Y0, Y1 = -x1, x1, -y1, y1
+        if mode == "cap_n":
+            Y0 = y1 * rng.uniform(0.5, 0.9)
+        if mode == "cap_s":
+            Y1 = -y1 * rng.uniform(0.5, 0.9)
+        if mode == "west":
+            X1 = -x1 * rng.uniform(0.2, 0.8)
+        res_x = (X1 - X0) / dnx
+        dny = max(2, int((Y1 - Y0) / res_x))
+        res_y = (Y1 - Y0) / dny
+        yield ["EPSG:4326", [ny, nx], [rx, 0.0, -180.0 - tol, 0.0, -ry, 90.0 + tol], dcrs, [dny, dnx],
+               [res_x, 0.0, X0, 0.0, -res_y, Y1], {"padding": rng.choice([None, None, 2]), "align": None}, 3, 1.0]
+
+
+def custom_crs(kind, lon0, lat0, uid):
+    if kind == "laea":
+        return f"+proj=laea +lat_0={lat0} +lon_0={lon0} +x_0=0 +y_0=0 +datum=WGS84 +units=m +no_defs +title=c03scene{uid:06d}"
+    return f"+proj=tmerc +lat_0=0 +lon_0={lon0} +k=0.9996 +x_0=500000 +y_0=0 +datum=WGS84 +units=m +no_defs +title=c03scene{uid:06d}"
+
+
+def p_crs_custom_rounds(seed, rounds, churn_n):
+    """a long-running process that handles one scene after the other, each with its own pair of custom CRSs:
+    plan scene k (judged with pyproj called directly on the proj strings); go on to build / use / drop churn_n
+    other custom CRSs (tools/vlib/crshist.churn + gc) while scene k is still referenced; then scene k goes out of
+    scope object by object as scene k+1 comes in (del dst CRS, build the new source CRS, del src CRS, build the
+    new destination CRS - the order in which a loader replaces its state); plan scene k+1; ..."""
+    import gc
+    from pyproj import Transformer
+    from odc.geo.crs import CRS
+    from odc.geo.overlap import compute_reproject_roi
+    from vlib import crshist
+    rng = core.rng(f"c03-custom-{seed}")
+    uid = seed * 1000
+
+    def defs(rnd):
+        nonlocal uid
+        uid += 2
+        lon0 = ((seed * 37 + rnd * 53) % 300) - 150 + rnd / 16
+        lat0 = ((seed * 11 + rnd * 29) % 100) - 50
+        return custom_crs("laea", lon0, lat0, uid), custom_crs("tmerc", lon0 + (1 if rnd % 2 else -1), 0, uid + 1)
+
+    sdef, ddef = defs(0)
+    s_crs, d_crs = CRS(sdef), CRS(ddef)
+    for rnd in range(rounds):
+        src = mk_gbox(s_crs, [rng.randint(60, 120), rng.randint(60, 120)], [100.0, 0.0, -5000.0, 0.0, -100.0, 6000.0])
+        cx, cy = Transformer.from_crs(sdef, ddef, always_xy=True).transform(1500.0, -1000.0)
+        dst = mk_gbox(d_crs, [rng.randint(40, 80), rng.randint(40, 80)], [120.0, 0.0, cx - 4000.0, 0.0, -120.0, cy + 3500.0])
+        with warnings.catch_warnings():
+            warnings.simplefilter("ignore")
+            r = compute_reproject_roi(src, dst)
+        ok, msg = check_inclusion_pyproj(src, dst, r, 1)
+        why = f"scene {rnd}: src={sdef!r} dst={ddef!r} roi_src={r.roi_src} roi_dst={r.roi_dst} scale={r.scale!r}"
+        if ok and msg.startswith(" (0 "):
+            return False, why + ": generator produced a pair without overlap"
+        if not ok:
+            return False, why + msg + (f" (scene {rnd} of a process that built, used and dropped {churn_n} other CRSs between scenes)" if rnd else "")
+        del src, dst, r
+        crshist.churn(churn_n, salt=seed * 16 + rnd)
+        sdef, ddef = defs(rnd + 1)
+        del d_crs
+        s_new = CRS(sdef)
+        del s_crs
+        d_new = CRS(ddef)
+        s_crs, d_crs = s_new, d_new
+        del s_new, d_new
+    return True, f"{rounds} scenes"
+
+
 def p_crs_history(zone, south, history, seed):
     """an earlier public call CRS.transformer_to_crs(other, always_xy=...) on the same CRS pair must not change
     later planning: UTM zone <-> EPSG:4326 (lat/lon authority axis order), dense inclusion check with pyproj"""
@@ -863,7 +962,7 @@ def p_crs_history(zone, south, history, seed):
 
 
 PREDICATES = {"axis": p_axis, "reproject": p_reproject, "crs_scale": p_crs_scale, "crs_inclusion": p_crs_inclusion,
-              "crs_history": p_crs_history}
+              "crs_history": p_crs_history, "crs_custom_rounds": p_crs_custom_rounds, "after_history": p_after_history}
 
 
 def search(out, tier):
@@ -897,6 +996,29 @@ def search(out, tier):
             if not ok:
                 out.violation("c03:reproject_big", f"reproject_big{rp['args']}: {detail}",
                               {"predicate": "reproject_big", "args": rp["args"], "observed": detail})
+    # process histories (tools/vlib/crshist.py), first thing in the search so that the CRS pairs involved have not
+    # been combined before in this process: cross-CRS inclusion after the authority-axis-order transformer was
+    # requested first / after a churn of > 128 custom CRSs; recorded through "after_history" (fresh-process replay)
+    hrng = core.rng("c03-history")
+    fresh = [a for a in continental_stream(hrng, 40) if a[0] in ("EPSG:3577", "EPSG:3035", "EPSG:5070") and a[3] == "EPSG:4326"]
+    seen = set()
+    for a in fresh:
+        if a[0] in seen:
+            continue
+        seen.add(a[0])
+        out.count("search-family:after-history")
+        run("after_history", ["authority-order-first"], [a[0], a[3]], "crs_inclusion", a)
+    for a in fresh[3:5]:
+        out.count("search-family:after-history")
+        run("after_history", ["queries-first", "churn"], [a[0], a[3]], "crs_inclusion", a)
+    # scene after scene with per-scene custom CRSs and a churn of other CRSs in between (bounded / id-keyed caches)
+    for i in range(4 if tier == "quick" else 16):
+        out.count("search-family:custom-crs-rounds")
+        run("crs_custom_rounds", i, 6, 200)
+    # global lon/lat sources overshooting +-90 / +-180 by a hair, destinations reaching the pole rows
+    for args in global_stream(core.rng("c03-global"), 12 if tier == "quick" else 150):
+        out.count("search-family:crs-global")
+        run("crs_inclusion", *args)
     # per axis: exhaustive over small sizes, scales incl. mirrored / fractional, quarter-pixel offsets
     sizes = [0, 1, 2, 3, 4, 7] if tier == "quick" else [0, 1, 2, 3, 4, 5, 7, 11]
     scales = [Fr(1), Fr(2), Fr(3), Fr(1, 2), Fr(3, 2), Fr(2, 3), Fr(1, 3), Fr(5, 4), Fr(7, 3)]
